@@ -26,7 +26,9 @@ Definition oracle_step (st : N * bool) (r : crobs) : N * bool :=
   let handed_last := o_first r + o_count r - 1 in
   let expect_stored := if o_count r =? 0 then prev else if r_kill r then (if o_count r =? 1 then prev else handed_last - 1) else handed_last in
   (o_stored r, ok && o_ok r && o_consec r && ((o_count r =? 0) || (o_first r =? prev)) && (o_stored r =? expect_stored)
-               && (o_base r <=? o_stored r) && ((o_count r =? 0) || (handed_last =? r_upto r))).
+               && (o_base r <=? o_stored r) && ((o_count r =? 0) || (handed_last =? r_upto r))
+               (* the writer reads by offset up to 26 entries behind the consumer (queue of 25 + 1): still there *)
+               && ((o_base r =? 0) || (o_base r + 26 <=? o_stored r))).
 Definition oracle_ok (c : case) : bool := snd (fold_left oracle_step (snd c) (0, true)).
 
 Definition mismatches (cs : list case) : list N := map fst (filter (fun c => negb (model_ok c)) cs).
